@@ -231,7 +231,7 @@ REHANG_WITNESSES = [w(f'return {a26} --[[c]], {b30}, {c26}\n', oracle="comments"
                     w(f'local x, y = {a26} -- c\n, {b30}\nx, y = {a26} -- d\n, {b30}\n', oracle="comments", sweep=(5, 120))]
 SORT_COMMENT_WITNESSES = [w('local c = require("c")\n--[[ x ]] local a = require("a")\nlocal b = require("b") -- tb\n', oracle="comments", **SR)]
 # a line comment at a binary operator inside single-line contexts (D21): call arguments, index brackets, numeric for bounds
-BINOP_COMMENT_WITNESSES = [w('foo(a + b * -- comment\n c + d, e)\nfoo(a -- c\n + b)\nlocal t = a[b + -- c\n d]\nfor i = a + -- c\n b, 2 do end\nfoo(a)[b .. -- c\n d] = 1\nfoo((a + -- c\n b) * 2)\nfoo(a and -- why\n b or c)\n', oracle="comments", sweep=(10, 120))]
+BINOP_COMMENT_WITNESSES = [w('foo(a + b * -- comment\n c + d, e)\nfoo(a -- c\n + b)\nlocal t = a[b + -- c\n d]\nfor i = a + -- c\n b, 2 do end\nfoo(a)[b .. -- c\n d] = 1\nfoo((a + -- c\n b) * 2)\nfoo(a and -- why\n b or c)\nfoo((a -- p\n) + b)\nfoo(-(a -- q\n) .. b)\n', oracle="comments", sweep=(10, 120))]
 # a comment trailing a parenthesised table field value (D24); a line comment between a callee and its arguments (D25)
 FIELD_COMMENT_WITNESSES = [w('local t = { (a --[[c]]), b }\nlocal u = { x = (a -- c\n) }\nlocal v = { [1] = (a --[[d]]) }\nlocal q = { (a -- e\n), b }\n', oracle="comments", sweep=(10, 120))]
 CALL_COMMENT_WITNESSES = [w('a -- c\n (b)\na.b -- d\n (b)\nfoo(a -- e\n (b))\na -- f\n "s"\n', oracle="comments", sweep=(10, 120)),
